@@ -15,8 +15,8 @@ CFG = {
     "ready": True,
     "runner_in_harness": True,
     "case_key": case_key,
-    "level_text": "Proof + executable specification: 'the pixels the format defines' is an executable Gallina decoder written from the WebP lossless bitstream specification (LSB-first bit reader, header, transforms in any order each at most once, colour cache, meta prefix image, simple/normal prefix codes with the code-length code, 16/17/18 repeats and max_symbol, canonical codes, LZ77 with the 120 plane codes, inverse transforms on separate buffers). Proved for all inputs: each of the four inverse transforms undoes its forward transform (all 14 predictor modes via any mode assignment, any tile size, width 1 and the right-edge rule; all multiplier triples; all four index packings and ragged widths); the repaired buffer dataflow of applyInverseTransforms equals the specification for every transform chain and any stale buffer content, and the pinned in-place dataflow is refuted by a 9-pixel witness; expandColorMap lookup = specified lookup; deferred colour-cache insertion under any flush schedule = immediate insertion; bit reader/writer round trip; symbol decode of a tree path; copyBlock32 (memmove / fill / doubling) = pixel-by-pixel copy for all buffers, positions, distances and lengths; canonical prefix codes: decoding the canonical code word of any used symbol of any accepted length vector returns the symbol (prefix_roundtrip); transmission of a prefix code (simple and normal codes with code-length code, max_symbol and 16/17/18 repeats) round-trips; length/distance prefix coding round-trips; token level (literal / cache / copy with plane codes, colour cache) round-trips; and emit_decode in full: Spec.decode (emit p) = sem p for every well-formed plan (any transform list, with or without meta prefix image and any number of groups, any cache / codes / tokens); well-formedness is decided by an extracted boolean checker proved sound, which the harness runs on every generated plan, so the theorem applies to each generated stream. The Go decoder is compared on every run with the extracted specification on streams generated by an extracted bit-exact emitter from random plans covering the whole feature space (not only what /repo's encoder emits), on /repo's encoder outputs over colour-count x Method x Quality, on the testdata files, and kernel by kernel.",
-    "level_note": "Not proved: decode_complete (every accepted stream is the image of a plan); the 64-bit window bit reader, the two-level Huffman LUT, and packed tables have no implementation model — they are covered by the stream-level differential runs only. Trusted: Coq kernel, extraction, OCaml glue, Go harness and generators, translator.",
+    "level_text": "Proof + executable specification. 'The pixels the format defines' is an executable Gallina decoder (Vp8lSpec.decode) written from the WebP lossless bitstream specification: LSB-first bit reader, header, transforms in any order each at most once, colour cache, meta prefix image, simple/normal prefix codes with the code-length code, 16/17/18 repeats and max_symbol, canonical codes, LZ77 with the 120 plane codes, inverse transforms on separate buffers. Proved for all inputs (Properties/C03.v, 26 theorems, no axioms): (1) emit_decode — for every well-formed plan (any transform subset/order, tile bits, palette size; with or without meta prefix image and any number of groups; any cache bits; any mix of simple/normal codes; any valid literal/cache/copy token list) the specification decoder applied to the bytes of a bit-exact emitter returns the pixels the plan denotes; well-formedness has a sound extracted boolean checker (C03_emit_decode_checked) that the harness runs on every generated plan and on the plan recovered from every stream /repo's encoder writes (byte-exact re-emission), so the theorem applies to those actual bytes; its layers are separate theorems: canonical prefix codes (C03_prefix_roundtrip, C03_complete_code_accepted, C03_canonical_recurrence), code transmission (C03_code_roundtrip), length/distance prefix coding (C03_lz_roundtrip), token level for one group and for meta groups (C03_entropy_roundtrip, C03_entropy_roundtrip_groups), bit layer (C03_read_put_bits); (2) the four inverse transforms undo their forward transforms (all 14 predictor modes via any mode assignment, edge rules, width 1; all multipliers; all four index packings with ragged widths); (3) implementation models equal the specification: the repaired ping-pong dataflow of applyInverseTransforms for every transform chain and any stale buffer content (the pinned in-place dataflow is refuted by a 9-pixel witness), copyBlock32 (memmove/fill/doubling) = pixel-by-pixel copy for all arguments, deferred colour-cache insertion under any flush schedule = immediate insertion, expandColorMap lookup = specified lookup, the Huffman lookup tables (BuildHuffmanTable + ReadSymbol model) = the canonical code for every accepted length vector whose lengths fit the root table (C03_lut_decode_eq_canonical_partial), the trivial-literal basis; (4) the plane-code table and the format constants regenerated from the source equal the specification's. Every run compares the Go decoder with the extracted specification on emitter-generated streams covering the whole feature space (covering plans + random plans), on /repo's encoder outputs over colour-count x Method x Quality, on the testdata files, and kernel by kernel (copyBlock32, expandColorMap, applyInverseTransforms, Huffman tables incl. two-level, PlaneCodeToDistance), each Go decode under a wall-clock cap.",
+    "level_note": "Not proved: decode_complete (every stream the specification accepts is the image of a well-formed plan); the two-level case of the Huffman lookup tables (modelled and compared with the code on every run, theorem only stated: Vp8lLut.lut_decode_eq_canonical_statement); the 64-bit window bit reader and the packed-table fast path have no implementation model (no verif hook for internal/bitio yet) — they are covered by the stream-level differential runs only. wf_plan bounds dimensions by 16384, gives each sub-image one prefix-code group (as the format does) and excludes predictor modes > 13. Trusted: Coq kernel, extraction, OCaml glue, Go harness and generators, translator.",
     "technique": "Rocq: executable specification decoder and emitter, proofs about transforms / buffer dataflow / kernels, extraction-based differential execution against the Go decoder on emitter-generated streams",
     "notes": [
         "spec side (S) of every stream case = extracted Vp8lSpec.decode resp. Vp8lEmit.sem; implementation side = webp.Decode (RIFF-wrapped) and lossless.DecodeVP8L (bare), which must agree",
@@ -29,8 +29,9 @@ CFG = {
         "defect found on the pinned tree and fixed in /repo 56944c7: applyInverseTransforms ran the pixel-packing colour-indexing inverse in place (<=16 colours with a second transform): C03_inplace_inverse_refuted",
     ],
     "partial": [
-        "no _partial theorem left in Properties/C03.v; not stated as theorems: decode_complete (every stream the specification accepts is the image of a well-formed plan), bitreader_window_refines, lut_decode_eq_canonical, packed_table_eq (no implementation models of the 64-bit window reader and of the two-level / packed lookup tables; C03_trivial_literal_eq gives only the specification-side basis of the trivial-literal shortcut; covered by the stream-level and huf kernel differential runs only)",
-        "wf_plan bounds dimensions by 16384 and requires each sub-image to have one group (the format allows no meta image there); predictor modes > 13 are excluded",
+        "C03_lut_decode_eq_canonical_partial: proved when no code length exceeds the root table size (7-bit code-length table always; 8-bit tables when lengths <= 8); the second-level tables (nextTableBitSize, linked sub-tables) are in the model Vp8lLut.lut_build/lut_read and tied by the huf correspondence cases, full statement Vp8lLut.lut_decode_eq_canonical_statement is not proved",
+        "not stated as theorems: decode_complete, bitreader_window_refines (needs an add-only verif export for internal/bitio.LosslessReader to tie a model), packed_table_eq",
+        "wf_plan bounds dimensions by 16384 and excludes predictor modes > 13",
     ],
     "trusted_base": [
         "modelled, not verified: internal/lossless decode.go, decode_image.go, decode_transform.go, huffman.go, colorcache.go, internal/bitio/reader_lossless.go; the specification model is written from RFC 9649, the plane-code table is a frozen copy checked against the source table and against its closed-form characterisation",
